@@ -29,15 +29,24 @@ TESTS=pass; (cd /repo && cargo test --workspace --no-fail-fast --offline >/tmp/s
 demo_run; DEMO_WITH=$?
 RES=""
 FIRED=""
-for c in $CHECKS; do
-  t0=$SECONDS
+TMPD="$(mktemp -d /root/scratch/evalseed.XXXXXX)"
+# build once, then run the checks four at a time (each check only reads /repo and writes its own evidence file)
+(cd /verif/harness && cargo build --offline --profile checked --bin vpcheck >/dev/null 2>&1; cargo build --offline --release --bin vpcheck >/dev/null 2>&1)
+run_check() {
+  c="$1"; t0=$SECONDS
   out="$(cd /verif && timeout 1800 ./check "$c" quick 2>&1)"; rc=$?
   nv="$(echo "$out" | grep -c '^VIOLATION')"
-  first="$(echo "$out" | grep -A1 -m1 '^VIOLATION' | tail -1 | cut -c1-200 | tr '"' "'")"
-  RES="$RES{\"check\":\"$c\",\"exit\":$rc,\"violations\":$nv,\"seconds\":$((SECONDS-t0)),\"first\":\"$first\"},"
-  [ $rc -eq 1 ] && FIRED="$FIRED $c"
-  rm -f /verif/replays/*.json
+  first="$(echo "$out" | grep -A1 -m1 '^VIOLATION' | tail -1 | cut -c1-200 | tr '"' "'" | tr -d '\\')"
+  echo "{\"check\":\"$c\",\"exit\":$rc,\"violations\":$nv,\"seconds\":$((SECONDS-t0)),\"first\":\"$first\"}" > "$TMPD/$c.json"
+}
+export -f run_check; export TMPD
+echo $CHECKS | tr ' ' '\n' | xargs -P 4 -I{} bash -c 'run_check {}'
+for c in $CHECKS; do
+  [ -f "$TMPD/$c.json" ] || continue
+  RES="$RES$(cat "$TMPD/$c.json"),"
+  grep -q '"exit":1,' "$TMPD/$c.json" && FIRED="$FIRED $c"
 done
+rm -rf "$TMPD"; rm -f /verif/replays/*.json
 cleanup; trap - EXIT
 cp "$PATCH" "$OUT/patch.diff"
 [ -n "$DEMO" ] && cp "$DEMO" "$OUT/$(basename "$DEMO")"
